@@ -96,6 +96,7 @@ fn print_report(r: &exec::Report) {
 fn cmd_fanout(args: &[String]) -> i32 {
     let jobs: usize = arg(args, "--jobs").and_then(|s| s.parse().ok()).unwrap_or(16).max(1);
     let file = arg(args, "--file").expect("--file");
+    let timeout_ms: u64 = arg(args, "--timeout-ms").and_then(|s| s.parse().ok()).unwrap_or(120_000);
     let text = std::fs::read_to_string(&file).expect("read cmds");
     let cmds: Vec<&str> = text.lines().collect();
     let exe = std::path::PathBuf::from("/proc/self/exe"); // survives a rebuild that replaces the binary on disk
@@ -112,11 +113,43 @@ fn cmd_fanout(args: &[String]) -> i32 {
                 let out = Command::new(&exe).args(&a).env_clear().stdin(Stdio::null()).stderr(Stdio::piped()).stdout(Stdio::piped()).spawn();
                 let rec = match out {
                     Ok(mut child) => {
-                        let mut buf = Vec::new();
-                        child.stdout.take().unwrap().read_to_end(&mut buf).ok();
-                        let mut ebuf = Vec::new();
-                        child.stderr.take().unwrap().read_to_end(&mut ebuf).ok();
-                        let code = child.wait().ok().and_then(|s| s.code()).unwrap_or(-1);
+                        // stdout/stderr are drained by two helper threads so that a chatty child cannot block on a full pipe
+                        // while this thread watches the clock: a child that does not come back within the limit is killed and
+                        // reported as TIMEOUT (termination is not a property these checks judge; the driver exits 2)
+                        let mut so = child.stdout.take().unwrap();
+                        let mut se = child.stderr.take().unwrap();
+                        let t1 = std::thread::spawn(move || {
+                            let mut b = Vec::new();
+                            so.read_to_end(&mut b).ok();
+                            b
+                        });
+                        let t2 = std::thread::spawn(move || {
+                            let mut b = Vec::new();
+                            se.read_to_end(&mut b).ok();
+                            b
+                        });
+                        let start = std::time::Instant::now();
+                        let mut timed_out = false;
+                        let code = loop {
+                            match child.try_wait() {
+                                Ok(Some(st)) => break st.code().unwrap_or(-1),
+                                Ok(None) => {
+                                    if start.elapsed().as_millis() as u64 > timeout_ms {
+                                        child.kill().ok();
+                                        child.wait().ok();
+                                        timed_out = true;
+                                        break -9;
+                                    }
+                                    std::thread::sleep(std::time::Duration::from_millis(2));
+                                }
+                                Err(_) => break -1,
+                            }
+                        };
+                        let mut buf = t1.join().unwrap_or_default();
+                        let ebuf = t2.join().unwrap_or_default();
+                        if timed_out {
+                            buf.extend_from_slice(b"TIMEOUT\n");
+                        }
                         if !ebuf.is_empty() {
                             for l in String::from_utf8_lossy(&ebuf).lines() {
                                 buf.extend_from_slice(format!("STDERR {l}\n").as_bytes());
